@@ -53,6 +53,7 @@ struct Task {
     int prio = 0;
     void *fake_stack = nullptr;
     bool cond_signalled = false;
+    int locks_held = 0;
 };
 
 struct SMutex { uint32_t magic; int owner; };
@@ -249,6 +250,7 @@ int spawn(std::function<void()> fn, const char *name, int kind) {
     uintptr_t p = (uintptr_t) t;
     makecontext(&t->ctx, (void (*)()) task_entry, 2, (unsigned) (p & 0xffffffffu), (unsigned) (p >> 32));
     W.tasks.push_back(t);
+    if (W.cur >= 0) race_on_create(W.cur, t->id);     // spawned from inside a task: everything the parent did happens before the child
     return t->id;
 }
 
@@ -325,6 +327,7 @@ int wait_task(int id) {
     if (id < 0 || id >= (int) W.tasks.size() || W.cur < 0) return -1;
     Task *target = W.tasks[id];
     while (target->st != T_DONE) { Task *t = W.tasks[W.cur]; t->st = T_BLOCK_JOIN; t->wait_obj = target; switch_to_main(); }
+    race_on_join(W.cur, id);
     return 0;
 }
 int cur_task() { return W.cur; }
@@ -349,6 +352,23 @@ void yield_point(int kind) {
     runnable_list(list, true);
     if (list.size() < 2) return;
     uint32_t c = decide(list, false);
+    if (c == 0) return;
+    W.next_task = list[c];
+    switch_to_main();
+}
+
+bool cur_holds_mutex() { return W.cur >= 0 && W.tasks[W.cur]->locks_held > 0; }
+// access-level preemption (race variant): switch to some other runnable task right now
+void preempt_now() {
+    if (W.cur < 0) return;
+    ++W.candidates;
+    wake_sleepers();
+    std::vector<int> list; runnable_list(list, true);
+    if (list.size() < 2) return;
+    uint32_t c;
+    if (W.replay) { c = (W.dpos < W.replay->size()) ? (*W.replay)[W.dpos] % (uint32_t) list.size() : 0; ++W.dpos; }
+    else c = 1 + (uint32_t) W.rng_sched.below(list.size() - 1);
+    W.dec.push_back(c);
     if (c == 0) return;
     W.next_task = list[c];
     switch_to_main();
@@ -398,11 +418,13 @@ static void mutex_acquire(pthread_mutex_t *m) {
         switch_to_main();
     }
     s->owner = W.cur;
+    if (W.cur >= 0) ++W.tasks[W.cur]->locks_held;
     race_on_acquire(m);
 }
 static void mutex_release(pthread_mutex_t *m) {
     SMutex *s = mtx(m);
     race_on_release(m);
+    if (W.cur >= 0 && W.tasks[W.cur]->locks_held > 0) --W.tasks[W.cur]->locks_held;
     s->owner = -1;
     for (Task *o : W.tasks) if (o->st == T_BLOCK_MUTEX && o->wait_obj == m) o->st = T_RUNNABLE;
 }
